@@ -20,7 +20,9 @@ SPEC = {
     "rule": ("case = one tree (depth 1-3; 3-state occupancy vector over 5 (quick) / 7 (thorough) coordinates or random; "
              "explicit default payloads, empty sub-fibers; leaf default 0 or 7; declared shapes; explicit active ranges "
              "not aligned to any step, set on the fibers of the split rank) x one entry point (free Fiber method, "
-             "Tensor method by depth= or rankid=, method of a tensor's root fiber, the in-place split*Below closures) x a "
+             "Tensor method / method of a tensor's root fiber with the split rank named by depth=, by rankid=, or by rankid= "
+             "together with a depth= that names another rank (rankid is documented to override depth); the in-place "
+             "split*Below closures) x a "
              "list of splits (splitUniform steps 1..9, splitNonUniform lists with/without leading 0 and with boundaries at "
              "/ beyond the end of the active range, splitEqual, splitUnEqual with sum of sizes below/equal/above the "
              "occupancy, f / n, f // n; halos 0..3 on both sides; relativeCoords; depth 0..2), or a nested re-split "
@@ -31,9 +33,11 @@ SPEC = {
     "min_counts": {"quick": {"evaluations": 800, "oracle_evals": 200000, "splits_checked": 20000, "targets_checked": 25000,
                              "partitions_checked": 40000, "halo_splits": 8000, "relative_splits": 3000,
                              "position_space_splits": 5000, "div_splits": 1000, "deep_splits": 1500,
-                             "tensor_splits": 800, "nested_resplits": 300, "elements_located": 50000, "boundary_fiber_splits": 1500},
+                             "tensor_splits": 800, "nested_resplits": 300, "elements_located": 50000, "boundary_fiber_splits": 1500,
+                             "tensor_level_lookups": 8000, "both_named_splits": 600, "depth_rankid_disagree_splits": 300},
                    "thorough": {"evaluations": 10000, "oracle_evals": 4000000, "splits_checked": 400000,
-                                "deep_splits": 30000, "tensor_splits": 15000, "nested_resplits": 6000}},
+                                "deep_splits": 30000, "tensor_splits": 15000, "nested_resplits": 6000,
+                                "tensor_level_lookups": 100000, "both_named_splits": 12000, "depth_rankid_disagree_splits": 6000}},
     "assumptions": [
         "integer coordinates >= 0, ordered/unique fibers, rank format C (the library documents that U-format iteration does not work with halos)",
         "step >= 1, n >= 1 for / and //, halos integers >= 0, split lists non-empty and strictly increasing, size lists non-empty with sizes >= 1",
@@ -45,6 +49,10 @@ SPEC = {
         "a fiber of the split rank that holds no non-empty element has no non-empty partition: its split is an upper level without coordinates "
         "(except through the in-place split*Below closures, which are updatePayloads() applications and visit non-empty payloads only)",
         "nested re-splits take a first split with absolute coordinates (with relativeCoords the partition's active range stays absolute, as the statement says, while its coordinates are offsets)",
+        "when a call gives both rankid= and depth=, the rank being split is the one rankid names (every split method documents "
+        "'rankid ... overrides the depth argument'); the depth= value given alongside always names an existing rank",
+        "the upper level / lower fibers of a split of rank R of a Tensor are the levels the result tensor lists as R.1 / R.0 (documented "
+        "naming): each must be listed once, at the tree levels where the split rank was; nothing else about the rank-id list is used here",
         "payloads are compared by value (public entry points deep-copy first; aliasing is C10's); rank ids / shapes / the upper fiber's own active range are C14's",
     ],
 }
@@ -59,7 +67,24 @@ SIZE_LISTS = [[1], [2], [1, 1], [2, 1], [1, 2], [3, 1], [2, 2], [1, 1, 1], [4], 
 # generation
 # ------------------------------------------------------------------------------------------
 def _op(name, arg, rel=False, pre=0, post=0, depth=0, by="depth"):
+    """`depth` is always the rank the split is *meant* for (the oracle's target).  by = how the call names it:
+    "depth" (depth=), "rankid" (rankid=) or "both" (rankid= naming the target together with a depth= naming the
+    rank op["decoy"]; rankid is documented to override depth)."""
     return {"op": name, "arg": arg, "rel": bool(rel), "pre": pre, "post": post, "depth": depth, "by": by}
+
+
+def _rand_by(rng, entry):
+    if entry not in ("tensor", "root"):
+        return "depth"
+    return rng.choice(["depth", "depth", "rankid", "rankid", "both", "both"])
+
+
+def _set_decoy(rng, op, nlevels):
+    """For a by="both" call: the depth= argument names any rank of the tree, preferably not the target."""
+    if op["by"] == "both":
+        others = [k for k in range(nlevels) if k != op["depth"]]
+        op["decoy"] = rng.choice(others) if others and rng.random() < 0.9 else op["depth"]
+    return op
 
 
 def _sys_ops(n, hmax, thorough, salt):
@@ -160,10 +185,10 @@ def _random_case(rng):
     if rng.random() < 0.25:
         # nested re-split
         d = rng.randint(0, maxd) if entry != "below" else rng.randint(1, maxd)
-        by = "rankid" if entry in ("tensor", "root") and rng.random() < 0.5 else "depth"
-        first = _rand_op(rng, ext[d], d, by)
+        by = _rand_by(rng, entry)
+        first = _set_decoy(rng, _rand_op(rng, ext[d], d, by), levels)
         first["rel"] = False
-        second = _rand_op(rng, ext[d], d + 1, by)
+        second = _set_decoy(rng, _rand_op(rng, ext[d], d + 1, by), levels + 1)
         mode = "lower"
         if entry == "fiber" and d == 0 and rng.random() < 0.5:
             mode = "partition"
@@ -177,8 +202,8 @@ def _random_case(rng):
         d = rng.randint(0, maxd)
         if entry == "below":
             d = rng.randint(1, maxd)
-        by = "rankid" if entry in ("tensor", "root") and rng.random() < 0.5 else "depth"
-        ops.append(_rand_op(rng, ext[d], d, by, allow_div=(d == 0 and entry != "below")))
+        by = _rand_by(rng, entry)
+        ops.append(_set_decoy(rng, _rand_op(rng, ext[d], d, by, allow_div=(d == 0 and entry != "below")), levels))
         if ops[-1]["op"] in ("truediv", "floordiv"):
             ops[-1]["depth"] = 0
     case.update({"kind": "ops", "ops": ops})
@@ -311,6 +336,10 @@ def _invoke(obj, op, entry, ids):
         else:
             if op["by"] == "rankid":
                 kw["rankid"] = ids[op["depth"]]
+            elif op["by"] == "both":
+                # rankid names the rank to split; depth names another one and is documented to be overridden
+                kw["rankid"] = ids[op["depth"]]
+                kw["depth"] = op.get("decoy", op["depth"])
             elif op["depth"] or entry == "tensor":
                 kw["depth"] = op["depth"]
             res = getattr(obj, name)(a, **kw)
@@ -451,6 +480,28 @@ def _check_result(mon, op, targets, skeleton, res_root, d, entry="fiber"):
     return seen, big
 
 
+def _check_named_levels(mon, op, res, ids):
+    """A split of rank R of a *tensor*: the upper level and the lower fibers are levels of the result tensor, and a
+    tensor addresses its levels by rank.  The documented names of the two levels are `R.1` and `R.0`; the result
+    tensor must list them (once each) at the tree levels where the split rank was, i.e. where _check_result looks
+    for - and finds - the upper coordinates and the partitions.  Only the position of these two names is used."""
+    name, depth = op["op"], op["depth"]
+    rid = ids[depth]
+    mon.count("tensor_level_lookups")
+    try:
+        got = list(res.getRankIds())
+    except Exception as e:      # noqa
+        mon.violation(f"{name}:tensor-levels:raised:{type(e).__name__}", f"{name} of rank {rid}: getRankIds() of the result raised {e}")
+        return
+    up = [i for i, r in enumerate(got) if r == f"{rid}.1"]
+    low = [i for i, r in enumerate(got) if r == f"{rid}.0"]
+    mon.check(up == [depth] and low == [depth + 1], f"{name}:split-levels-not-at-named-rank",
+              f"{name}({op['arg']}) of rank {rid!r} (tree level {depth}; called by={op['by']}"
+              f"{', depth=' + str(op.get('decoy')) if op['by'] == 'both' else ''}) of a tensor with ranks {ids}: the result lists the upper "
+              f"level {rid + '.1'!r} at levels {up} and the lower fibers {rid + '.0'!r} at levels {low} of {got}; "
+              f"the split rank's levels are {depth} and {depth + 1}")
+
+
 def _clause_checks(mon, name, kind, arg, what, elems, a0, a1, pre, post, rel, obs):
     ranges = [tuple(ar) for _, _, ar in obs]
     ok = all(lo < hi and a0 <= lo and hi <= a1 for lo, hi in ranges) and \
@@ -519,7 +570,8 @@ def _run_split(mon, case, op, obj, root, ids, d, entry):
                     if not candidate_partitions(name, op["arg"], act, tgt["a0"], tgt["a1"]):
                         suffix = ":no-active-partition"
         mon.violation(f"{name}:raised:{type(e).__name__}{suffix}",
-                      f"{name}({op['arg']}, rel={op['rel']}, pre={op['pre']}, post={op['post']}, depth={depth}, by={op['by']}) via {entry} "
+                      f"{name}({op['arg']}, rel={op['rel']}, pre={op['pre']}, post={op['post']}, depth={depth}, by={op['by']}"
+                      f"{', depth= names level ' + str(op.get('decoy')) if op['by'] == 'both' else ''}) via {entry} "
                       f"raised {type(e).__name__}: {e}; targets "
                       f"{[([c for c, _ in t['elems']], (t['a0'], t['a1'])) for t in targets if t['fiber']][:4]}")
         return None
@@ -540,6 +592,12 @@ def _run_split(mon, case, op, obj, root, ids, d, entry):
         mon.count("tensor_splits")
     if entry == "below":
         mon.count("below_splits")
+    if op["by"] == "both":
+        mon.count("both_named_splits")
+        if op.get("decoy", depth) != depth:
+            mon.count("depth_rankid_disagree_splits")
+    if isinstance(res, Tensor):
+        _check_named_levels(mon, op, res, ids)
     seen, big = _check_result(mon, op, targets, skeleton, res_root, d, entry)
     return res, res_root, seen, big
 
